@@ -2,6 +2,7 @@
 import c19_rules
 import quantile_rules
 import generic_lints
+import twins
 
 
 def run(facts, tier):
@@ -14,6 +15,7 @@ def run(facts, tier):
         ("foreign memory", c19_rules.foreign_memory, 0, "no new/delete/malloc outside the user's allocator (reviewed exception: CPC compressor tables)"),
         ("dangling references", c19_rules.dangling_returns, 50, "no function returns a reference to a local object"),
         ("duplicate operands", lambda fa: generic_lints.duplicate_conjuncts(fa, None), 2, "no logical chain tests the same operand twice (copy-paste of the wrong peer)"),
+        ("overload twins", lambda fa: twins.overload_twins(fa, None), 8, "const& and && overloads of one operation have identical bodies modulo std::move/forward"),
     ):
         o = f(facts)
         obs += o
